@@ -36,7 +36,9 @@ def run_one(name):
             return name, ok, 'silent as required' if ok else 'ALARM on harmless edit: ' + '; '.join(failed)
         if r.returncode != 1:
             return name, False, 'expected exit 1, got %d: %s' % (r.returncode, out[-300:] + r.stderr[-300:])
-        missing = [m for m in exp['must_fail'] if not any(m in f for f in failed)]
+        import re
+        strip = lambda x: re.sub(r'#\d+', '', x)   # positions of call sites are not part of an expectation
+        missing = [m for m in exp['must_fail'] if not any(strip(m) in strip(f) for f in failed)]
         if missing:
             return name, False, 'failed obligations %s do not include %s' % (failed, missing)
         return name, True, 'fails as required: ' + '; '.join(failed[:4])
